@@ -12,7 +12,7 @@ for name in names:
     log = os.path.join(ROOT, "work", f"seedcheck-{name}.log")
     if not os.path.isdir(d) or not os.path.exists(log):
         continue
-    lines = [l.rstrip("\n") for l in open(log)]
+    lines = [l.rstrip("\n") for l in open(log, errors="replace")]
     caught = [l for l in lines if "SELFTEST" in l]
     fails = [l for l in lines if l.startswith("FAILED sub-check") or l.startswith("[thorough] FAILED")]
     notes = open(os.path.join(d, "notes.md")).read() if os.path.exists(os.path.join(d, "notes.md")) else ""
